@@ -479,6 +479,28 @@ func singletonParts(s *hcl.BodySchema, r *lib.Rand) []*hcl.BodySchema {
 	return parts
 }
 
+// slicedParts: the way a caller splits one schema without copying — every part is a window of the same
+// backing arrays (so a part has spare capacity that is the next part's content).
+func slicedParts(s *hcl.BodySchema, k int, r *lib.Rand) []*hcl.BodySchema {
+	attrs := append([]hcl.AttributeSchema{}, s.Attributes...)
+	blocks := append([]hcl.BlockHeaderSchema{}, s.Blocks...)
+	cuts := func(n int) []int {
+		c := []int{0}
+		for i := 1; i < k; i++ {
+			c = append(c, r.Intn(n+1))
+		}
+		c = append(c, n)
+		sort.Ints(c)
+		return c
+	}
+	ca, cb := cuts(len(attrs)), cuts(len(blocks))
+	parts := make([]*hcl.BodySchema, k)
+	for i := range parts {
+		parts[i] = &hcl.BodySchema{Attributes: attrs[ca[i]:ca[i+1]], Blocks: blocks[cb[i]:cb[i+1]]}
+	}
+	return parts
+}
+
 // stepsOver: requery = between two steps the current remaining body is also asked (PartialContent with the
 // next part, twice, results discarded): a body is a value, asking it must not change what it answers later.
 func (c *checker) stepsOver(body hcl.Body, s *hcl.BodySchema, parts []*hcl.BodySchema, requery bool) string {
@@ -775,6 +797,11 @@ func (c *checker) runLaws(body hcl.Body, items []cItem, grouped bool, depth int,
 				}
 			})
 		}
+		c.guard(func() {
+			if cl := c.stepsOver(body, s, slicedParts(s, 2+c.r.Intn(3), c.r), false); cl != "" {
+				c.fail(sub+cl+":parts-are-windows-of-one-array", "processing in steps whose schemas are windows of one backing array differs from one exhaustive step", "")
+			}
+		})
 		c.guard(func() {
 			if cl := c.stepsOver(body, s, splitSchema(s, k, c.r), true); cl != "" {
 				c.fail(sub+cl+":with-discarded-queries", "asking a remaining body (results discarded) changed what later steps return", "")
